@@ -1,6 +1,7 @@
 import Driver.Basic
 import Driver.Store
 import Driver.Trav
+import Driver.Dec
 /-!
 Line-protocol driver: evaluates the Lean model's executable definitions on requests read from stdin,
 one response per line. Built as a `lean_exe` (imports nothing outside core/Std).
@@ -15,6 +16,9 @@ def respond (line : String) : String :=
   | some r => r
   | none =>
   match respondTrav ws with
+  | some r => r
+  | none =>
+  match respondDec ws with
   | some r => r
   | none => "bad-request"
 
